@@ -14,6 +14,13 @@ pub struct AvroCase {
     pub depth: u32,
 }
 
+/// known finding: with_utf8_view(true) reads null strings as empty strings
+fn has_null_string(ac: &AvroCase) -> bool {
+    ac.fields.iter().zip(&ac.specials).zip(&ac.cols).any(|((f, sp), col)| {
+        col.iter().any(|v| (*sp == Special::Uuid && v.is_null()) || any_value(&f.ty, v, &|ty, x| x.is_null() && matches!(ty.denoted(), LType::Utf8(_))))
+    })
+}
+
 fn type_depth(ty: &LType) -> u32 {
     match ty {
         LType::List(f, _) | LType::FixedList(f, _) => 1 + type_depth(&f.ty),
@@ -41,7 +48,16 @@ pub fn gen_avro_case(c: &mut Case, cross: bool) -> AvroCase {
                 specials.push(Special::Uuid);
             }
             _ => {
-                fields.push(gen_avro_field(&mut c.tape, 0, &name, cross));
+                let mut f = gen_avro_field(&mut c.tape, 0, &name, cross);
+                if !c.strict {
+                    for _ in 0..fix_nested_ree(&mut f, 0) {
+                        c.exclude("avro-nested-nullable-runend");
+                    }
+                    for _ in 0..fix_listview_ree(&mut f) {
+                        c.exclude("avro-listview-runend");
+                    }
+                }
+                fields.push(f);
                 specials.push(Special::None);
             }
         }
@@ -82,6 +98,42 @@ pub fn gen_avro_case(c: &mut Case, cross: bool) -> AvroCase {
         })
         .collect();
     AvroCase { fields, specials, schema: Arc::new(Schema::new(afields)), cols, rows, depth }
+}
+
+/// the engine's realiser occasionally panics on run-end layouts (engine issue, reported): such cases are skipped
+fn realise_all(c: &mut Case, ac: &AvroCase, schema: &SchemaRef, splits: &[(usize, usize)], lay: &Lay) -> Option<Vec<RecordBatch>> {
+    let mut lay = lay.clone();
+    if lay.fancy && !c.strict {
+        let bool_child = ac.fields.iter().any(|f| {
+            f.ty.any(&|x| match x {
+                LType::List(c, _) | LType::FixedList(c, _) => matches!(c.ty, LType::Bool),
+                LType::Map { val, .. } => matches!(val.ty, LType::Bool),
+                _ => false,
+            })
+        });
+        if bool_child {
+            // known finding: list/map encoders subtract Array::offset() of the child (non-zero for a BooleanArray whose
+            // bitmap starts at a bit offset) from the element index
+            c.exclude("avro-child-array-offset");
+            lay = Lay::plain();
+        } else if ac.fields.iter().any(|f| f.ty.any(&|x| matches!(x, LType::Ree { .. }))) {
+            // known finding: the Avro RunEncodedEncoder ignores the offset of a sliced RunArray
+            c.exclude("avro-sliced-runend");
+            lay.slice_chance = 0;
+        }
+    }
+    let lay = &lay;
+    let t = &mut c.tape;
+    match catch(|| splits.iter().map(|(s, n)| realise_avro(t, ac, schema, *s, *n, lay)).collect::<Vec<_>>()) {
+        Ok(b) => Some(b),
+        Err(p) => {
+            if std::env::var("C17_REPORT_PANIC").is_ok() {
+                eprintln!("ENGINE-REALISE-PANIC {} {} fields={:?} splits={:?} lay={:?}", p.loc, p.msg, ac.fields, splits, lay);
+            }
+            c.class("skipped:engine-realise-panic");
+            None
+        }
+    }
 }
 
 fn realise_avro(t: &mut Tape, ac: &AvroCase, schema: &SchemaRef, s: usize, n: usize, lay: &Lay) -> RecordBatch {
@@ -143,15 +195,34 @@ fn expected(ac: &AvroCase, utf8view: bool) -> (Vec<LField>, LBatch) {
             _ => f.clone(),
         })
         .collect();
-    let cols = ac.fields.iter().zip(&ac.cols).map(|(f, col)| col.iter().map(|v| rb_value(&f.ty, v)).collect()).collect();
+    let cols = ac
+        .fields
+        .iter()
+        .zip(&ac.specials)
+        .zip(&ac.cols)
+        .map(|((f, sp), col)| {
+            col.iter()
+                .map(|v| match (sp, v) {
+                    // reader choice: with_utf8_view(true) a `string`/uuid column is read as its text form (Utf8View)
+                    (Special::Uuid, LValue::Bytes(b)) if utf8view => LValue::Str(apache_avro::Uuid::from_slice(b).unwrap().hyphenated().to_string()),
+                    _ => rb_value(&f.ty, v),
+                })
+                .collect()
+        })
+        .collect();
     (fields, cols)
 }
 
 /// writer schema: either the Arrow schema as is, or with a verbatim `avro.schema` entry whose nullable unions are
 /// (partly) null-second
-fn with_null_second(c: &mut Case, schema: &SchemaRef) -> Result<(SchemaRef, String, usize), Fail> {
+fn with_null_second(c: &mut Case, schema: &SchemaRef, arrow_ocf: bool) -> Result<(SchemaRef, String, usize), Fail> {
     let js = avro_schema_json(schema.as_ref()).map_err(|e| Fail::new("avro:schema:err", format!("Arrow schema inside the committed grid has no Avro schema: {}", e)))?;
     if c.tape.chance(150) {
+        return Ok((schema.clone(), js, 0));
+    }
+    if arrow_ocf && !c.strict {
+        // known finding: the OCF header does not advertise a user-supplied avro.schema (body and header disagree)
+        c.exclude("avro-ocf-custom-schema-header");
         return Ok((schema.clone(), js, 0));
     }
     let mut v: serde_json::Value = serde_json::from_str(&js).map_err(|e| Fail::new("avro:schema:json", e.to_string()))?;
@@ -173,16 +244,18 @@ fn gen_framing(t: &mut Tape) -> AvroFraming {
 }
 
 fn gen_codec(t: &mut Tape) -> AvroCodec {
-    *t.pick(&[AvroCodec::None, AvroCodec::Deflate, AvroCodec::Snappy, AvroCodec::Zstd, AvroCodec::Bzip2, AvroCodec::Xz])
+    // the compressing codecs set up a fresh encoder per block (xz/zstd/bzip2 are expensive): weighted towards the cheap ones
+    *t.pick(&[AvroCodec::None, AvroCodec::None, AvroCodec::None, AvroCodec::Deflate, AvroCodec::Deflate, AvroCodec::Snappy, AvroCodec::Snappy, AvroCodec::Zstd, AvroCodec::Bzip2, AvroCodec::Xz])
 }
 
-fn check_types(got: &SchemaRef, want: &[LField], specials: &[Special], what: &str) -> CaseResult {
+fn check_types(got: &SchemaRef, want: &[LField], specials: &[Special], what: &str, utf8view: bool) -> CaseResult {
     ensure!(got.fields().len() == want.len(), format!("{}:columns", what), "reader returned {} columns, expected {}", got.fields().len(), want.len());
     for ((g, w), sp) in got.fields().iter().zip(want).zip(specials) {
         ensure!(g.name() == &w.name, format!("{}:name", what), "column name {:?} expected {:?}", g.name(), w.name);
         ensure!(g.is_nullable() == w.nullable, format!("{}:nullable", what), "column {} nullable={} expected {}", w.name, g.is_nullable(), w.nullable);
         match sp {
             Special::Enum(_) => ensure!(matches!(g.data_type(), DataType::Dictionary(..)), format!("{}:type", what), "enum column read as {}", g.data_type()),
+            Special::Uuid if utf8view => ensure!(matches!(g.data_type(), DataType::Utf8View), format!("{}:type", what), "uuid column read as {} with with_utf8_view", g.data_type()),
             Special::Uuid => ensure!(matches!(g.data_type(), DataType::FixedSizeBinary(16)), format!("{}:type", what), "uuid column read as {}", g.data_type()),
             Special::None => {
                 let gt = LType::from_arrow(g.data_type());
@@ -199,20 +272,29 @@ fn describe(c: &mut Case, ac: &AvroCase, o: &AvroOpts, extra: serde_json::Value)
 }
 
 pub fn sub_avro(c: &mut Case) -> CaseResult {
+    if std::env::var("C17_NOSTRICT").is_ok() {
+        c.strict = false; // debugging aid: replay a recorded case with the generator exclusions still active
+    }
     let ac = gen_avro_case(c, false);
     let mut o = AvroOpts::default();
     o.framing = gen_framing(&mut c.tape);
     o.codec = if o.framing == AvroFraming::Ocf { gen_codec(&mut c.tape) } else { AvroCodec::None };
     o.utf8view = c.tape.chance(64);
+    if o.utf8view && !c.strict && has_null_string(&ac) {
+        c.exclude("avro-utf8view-null-string");
+        o.utf8view = false;
+    }
     o.capacity = *c.tape.pick(&[1024usize, 0, 1, 16]);
-    let (wschema, avro_json, swapped) = with_null_second(c, &ac.schema)?;
+    let (wschema, avro_json, swapped) = with_null_second(c, &ac.schema, o.framing == AvroFraming::Ocf)?;
     o.strict = swapped == 0 && c.tape.chance(64);
     let use_encoder = o.framing != AvroFraming::Ocf && c.tape.bool();
     let splits = split_rows(&mut c.tape, ac.rows);
     let lay = if c.tape.bool() { Lay::fancy() } else { Lay::plain() };
-    let batches: Vec<RecordBatch> = splits.iter().map(|(s, n)| realise_avro(&mut c.tape, &ac, &wschema, *s, *n, &lay)).collect();
+    let Some(batches) = realise_all(c, &ac, &wschema, &splits, &lay) else { return Ok(()) };
     let bs = batch_size_for(&mut c.tape, ac.rows);
-    let chunks: Vec<usize> = if c.tape.bool() { vec![] } else { (0..1 + c.tape.below(4)).map(|_| 1 + c.tape.below(40)).collect() };
+    // the push decoder is fed whole messages only (chunk boundaries inside a message belong to property C14)
+    let group = if c.tape.bool() { 0 } else { 1 + c.tape.below(3) };
+    let mut chunks: Vec<usize> = vec![];
     classes(c, &ac);
     c.class(format!("codec:{:?}", o.codec));
     c.class(match o.framing {
@@ -231,7 +313,7 @@ pub fn sub_avro(c: &mut Case) -> CaseResult {
         c.class("row-encoder");
     }
     let nullable_union = ac.fields.iter().any(|f| f.nullable || f.ty.any(&|x| matches!(x, LType::List(f, _) | LType::FixedList(f, _) if f.nullable)));
-    describe(c, &ac, &o, json!({"splits": splits, "batch_size": bs, "chunks": chunks, "null_second_sites": swapped, "row_encoder": use_encoder, "avro_schema": avro_json}));
+    describe(c, &ac, &o, json!({"splits": splits, "batch_size": bs, "messages_per_chunk": group, "null_second_sites": swapped, "row_encoder": use_encoder, "avro_schema": avro_json}));
     if ac.rows > 0 && (nullable_union || ac.depth > 0) && (o.framing != AvroFraming::Ocf || o.codec != AvroCodec::None || swapped > 0) {
         c.nontrivial();
     }
@@ -243,6 +325,7 @@ pub fn sub_avro(c: &mut Case) -> CaseResult {
         };
         match no_panic("avro:read", || avro_read_ocf(&bytes, &o, bs))? {
             Ok(x) => x,
+            Err(e) if e.starts_with(HANG) => fail!("avro:read:hang", "{} on the writer's output", e),
             Err(e) => fail!("avro:read:err", "OCF reader failed on the writer's output ({} bytes): {}", bytes.len(), e),
         }
     } else {
@@ -250,6 +333,9 @@ pub fn sub_avro(c: &mut Case) -> CaseResult {
             match no_panic("avro:encode", || avro_encode_rows(wschema.as_ref(), &batches, &o))? {
                 Ok(rows) => {
                     ensure!(rows.len() == ac.rows, "avro:encoder:rows", "row encoder produced {} messages for {} rows", rows.len(), ac.rows);
+                    if group > 0 {
+                        chunks = rows.chunks(group).map(|g| g.iter().map(|m| m.len()).sum()).collect();
+                    }
                     rows.concat()
                 }
                 Err(e) => fail!("avro:write:err", "row encoder rejected a batch inside the committed grid: {}", e),
@@ -265,7 +351,7 @@ pub fn sub_avro(c: &mut Case) -> CaseResult {
             Err(e) => fail!("avro:read:err", "stream decoder failed on the writer's output ({} bytes): {}", bytes.len(), e),
         }
     };
-    check_types(&rs, &want_fields, &ac.specials, "avro")?;
+    check_types(&rs, &want_fields, &ac.specials, "avro", o.utf8view)?;
     for b in &out {
         ensure!(b.num_rows() <= bs, "avro:batch-size", "batch of {} rows with batch_size {}", b.num_rows(), bs);
     }
@@ -285,7 +371,7 @@ fn apache_codec(c: AvroCodec) -> apache_avro::Codec {
         AvroCodec::Snappy => apache_avro::Codec::Snappy,
         AvroCodec::Zstd => apache_avro::Codec::Zstandard(Default::default()),
         AvroCodec::Bzip2 => apache_avro::Codec::Bzip2(Default::default()),
-        AvroCodec::Xz => apache_avro::Codec::Xz(Default::default()),
+        AvroCodec::Xz => apache_avro::Codec::Xz(apache_avro::XzSettings::new(*[0u8, 1, 6].get(0).unwrap())),
     }
 }
 
@@ -308,6 +394,9 @@ fn expected_apache(schema: &apache_avro::Schema, fields: &[LField], specials: &[
 }
 
 pub fn sub_avro_cross(c: &mut Case) -> CaseResult {
+    if std::env::var("C17_NOSTRICT").is_ok() {
+        c.strict = false;
+    }
     let ac = gen_avro_case(c, true);
     let dir_a = c.tape.bool(); // true: arrow-avro writes, apache-avro reads
     let soe = c.tape.chance(80);
@@ -318,13 +407,14 @@ pub fn sub_avro_cross(c: &mut Case) -> CaseResult {
     c.class(format!("codec:{:?}", o.codec));
     c.class(format!("{}:{}", if dir_a { "arrow->apache" } else { "apache->arrow" }, if soe { "soe" } else { "ocf" }));
     if dir_a {
-        let (wschema, avro_json, swapped) = with_null_second(c, &ac.schema)?;
+        let (wschema, avro_json, swapped) = with_null_second(c, &ac.schema, !soe)?;
         if swapped > 0 {
             c.class("null-second");
         }
-        let splits = split_rows(&mut c.tape, ac.rows);
+        // empty batches become OCF blocks with count 0, at which apache-avro stops reading: not generated here
+        let splits: Vec<(usize, usize)> = split_rows(&mut c.tape, ac.rows).into_iter().filter(|x| x.1 > 0).collect();
         let lay = if c.tape.bool() { Lay::fancy() } else { Lay::plain() };
-        let batches: Vec<RecordBatch> = splits.iter().map(|(s, n)| realise_avro(&mut c.tape, &ac, &wschema, *s, *n, &lay)).collect();
+        let Some(batches) = realise_all(c, &ac, &wschema, &splits, &lay) else { return Ok(()) };
         describe(c, &ac, &o, json!({"direction": "arrow-avro -> apache-avro", "splits": splits, "avro_schema": avro_json}));
         if ac.rows > 0 {
             c.nontrivial();
@@ -335,12 +425,31 @@ pub fn sub_avro_cross(c: &mut Case) -> CaseResult {
             Err(e) => fail!("avro_cross:schema-rejected", "apache-avro rejects the writer schema produced by arrow-avro: {} ; schema {}", e, avro_json),
         };
         let want = expected_apache(&aschema, &want_fields, &ac.specials, &want_cols, ac.rows)?;
+        let diag: String;
         let got: Vec<AV> = if soe {
             let msgs = match no_panic("avro:encode", || avro_encode_rows(wschema.as_ref(), &batches, &o))? {
                 Ok(m) => m,
                 Err(e) => fail!("avro:write:err", "row encoder rejected a batch inside the committed grid: {}", e),
             };
-            let rd = apache_avro::GenericSingleObjectReader::builder().schema(aschema.clone()).build().map_err(|e| Fail::new("harness:apache-soe-reader", e.to_string()))?;
+            // apache-avro 0.22 keeps `{"type":"int"}` un-collapsed in its canonical form when a logicalType was present, so its
+            // Rabin fingerprint differs from the specification's (and arrow-avro's) for such schemas: the expected header is
+            // given explicitly; agreement of the two fingerprints is checked for schemas without logical types
+            let fp = arrow_rabin(&avro_json).map_err(|e| Fail::new("avro:fingerprint:err", e))?;
+            if !avro_json.contains("logicalType") {
+                let afp = u64::from_le_bytes(aschema.fingerprint::<apache_avro::rabin::Rabin>().bytes[..8].try_into().unwrap());
+                ensure!(afp == fp, "avro_cross:fingerprint", "CRC-64-AVRO fingerprint of {} : arrow-avro {} apache-avro {}", avro_json, fp, afp);
+                c.class("fingerprint-compared");
+            }
+            let mut header = vec![0xC3u8, 0x01];
+            header.extend_from_slice(&fp.to_le_bytes());
+            diag = match avro_read_stream(&avro_json, &msgs.concat(), &o, 1024, &[]) {
+                Ok((rs, out)) => match first_mismatch(&want_fields, &collect(&rs, &out).1, &want_cols) {
+                    None => "arrow-avro's decoder returns the written values".to_string(),
+                    Some(m) => format!("arrow-avro's decoder also deviates: {}", m),
+                },
+                Err(e) => format!("arrow-avro's decoder fails: {}", e),
+            };
+            let rd = apache_avro::GenericSingleObjectReader::builder().schema(aschema.clone()).header(header).build().map_err(|e| Fail::new("harness:apache-soe-reader", e.to_string()))?;
             let mut v = vec![];
             for (i, m) in msgs.iter().enumerate() {
                 match rd.read_value(&mut &m[..]) {
@@ -353,6 +462,14 @@ pub fn sub_avro_cross(c: &mut Case) -> CaseResult {
             let bytes = match no_panic("avro:write", || avro_write_ocf(wschema.as_ref(), &batches, &o))? {
                 Ok(b) => b,
                 Err(e) => fail!("avro:write:err", "OCF writer rejected a batch inside the committed grid: {}", e),
+            };
+            // third opinion for the failure message: what arrow-avro's own reader makes of the same file
+            diag = match avro_read_ocf(&bytes, &o, 1024) {
+                Ok((rs, out)) => match first_mismatch(&want_fields, &collect(&rs, &out).1, &want_cols) {
+                    None => "arrow-avro's reader returns the written values".to_string(),
+                    Some(m) => format!("arrow-avro's reader also deviates: {}", m),
+                },
+                Err(e) => format!("arrow-avro's reader fails: {}", e),
             };
             let rd = match apache_avro::Reader::new(&bytes[..]) {
                 Ok(r) => r,
@@ -369,14 +486,14 @@ pub fn sub_avro_cross(c: &mut Case) -> CaseResult {
         };
         ensure!(got.len() == want.len(), "avro_cross:rows", "apache-avro read {} records, {} were written", got.len(), want.len());
         for (i, (g, w)) in got.iter().zip(&want).enumerate() {
-            ensure!(avro_eq(g, w), "avro_cross:arrow->apache:value", "record {}: apache-avro decoded {:?} expected {:?}", i, g, w);
+            ensure!(avro_eq(g, w), "avro_cross:arrow->apache:value", "record {}: apache-avro decoded {:?} expected {:?} ; {}", i, g, w, diag);
         }
     } else {
         // canonical (read-back) schema, written by apache-avro from the Avro schema arrow-avro derives for it
         let (cf, ccols) = expected(&ac, false);
         let cfields: Vec<Field> = cf.iter().zip(ac.schema.fields()).map(|(f, orig)| f.arrow().with_metadata(orig.metadata().clone())).collect();
         let cschema: SchemaRef = Arc::new(Schema::new(cfields));
-        let (_, avro_json, swapped) = with_null_second(c, &cschema)?;
+        let (_, avro_json, swapped) = with_null_second(c, &cschema, false)?;
         if swapped > 0 {
             c.class("null-second");
         }
@@ -392,9 +509,16 @@ pub fn sub_avro_cross(c: &mut Case) -> CaseResult {
         };
         let vals = expected_apache(&aschema, &cf, &ac.specials, &ccols, ac.rows)?;
         o.utf8view = c.tape.chance(64);
+        if o.utf8view && !c.strict && has_null_string(&ac) {
+            c.exclude("avro-utf8view-null-string");
+            o.utf8view = false;
+        }
+        if o.utf8view {
+            c.class("utf8view");
+        }
         let (want_fields, want_cols): (Vec<LField>, LBatch) = {
             let f: Vec<LField> = cf.iter().zip(&ac.specials).map(|(f, sp)| if *sp == Special::None { LField { name: f.name.clone(), ty: rb_type(&f.ty, o.utf8view), nullable: f.nullable } } else { f.clone() }).collect();
-            (f, ccols.iter().map(|col| col.iter().map(sort_maps).collect()).collect())
+            (f, expected(&ac, o.utf8view).1.iter().map(|col| col.iter().map(sort_maps).collect()).collect())
         };
         let (rs, out) = if soe {
             let mut w = apache_avro::GenericSingleObjectWriter::new_with_capacity(&aschema, 64).map_err(|e| Fail::new("harness:apache-soe-writer", e.to_string()))?;
@@ -402,8 +526,13 @@ pub fn sub_avro_cross(c: &mut Case) -> CaseResult {
             for v in &vals {
                 w.write_value_ref(v, &mut bytes).map_err(|e| Fail::new("harness:apache-write", format!("apache-avro rejects generated value {:?}: {}", v, e)))?;
             }
-            let chunks: Vec<usize> = if c.tape.bool() { vec![] } else { vec![1 + c.tape.below(30)] };
-            match no_panic("avro:decode", || avro_read_stream(&avro_json, &bytes, &o, bs, &chunks))? {
+            let afp = u64::from_le_bytes(aschema.fingerprint::<apache_avro::rabin::Rabin>().bytes[..8].try_into().unwrap());
+            if !avro_json.contains("logicalType") {
+                let fp = arrow_rabin(&avro_json).map_err(|e| Fail::new("avro:fingerprint:err", e))?;
+                ensure!(afp == fp, "avro_cross:fingerprint", "CRC-64-AVRO fingerprint of {} : arrow-avro {} apache-avro {}", avro_json, fp, afp);
+                c.class("fingerprint-compared");
+            }
+            match no_panic("avro:decode", || avro_read_stream_fp(&avro_json, &bytes, &o, bs, &[], Some(afp)))? {
                 Ok(x) => x,
                 Err(e) => fail!("avro_cross:arrow-read", "arrow-avro cannot decode single-object messages written by apache-avro ({} bytes): {}", bytes.len(), e),
             }
@@ -418,7 +547,7 @@ pub fn sub_avro_cross(c: &mut Case) -> CaseResult {
                 Err(e) => fail!("avro_cross:arrow-read", "arrow-avro cannot read the OCF file written by apache-avro ({} bytes, codec {:?}): {}", bytes.len(), o.codec, e),
             }
         };
-        check_types(&rs, &want_fields, &ac.specials, "avro_cross")?;
+        check_types(&rs, &want_fields, &ac.specials, "avro_cross", o.utf8view)?;
         let (_, got) = collect(&rs, &out);
         let got: LBatch = got.iter().map(|col| col.iter().map(sort_maps).collect()).collect();
         if let Some(m) = first_mismatch(&want_fields, &got, &want_cols) {
